@@ -1,0 +1,96 @@
+//go:build verif
+// +build verif
+
+package osm
+
+import (
+	"sync"
+
+	"github.com/paulmach/osm"
+)
+
+// SimRuntime is implemented by a deterministic simulator that wants to own
+// every scheduling decision of extract: it is told about every point at
+// which a goroutine of extract may block or hand work to another goroutine,
+// immediately before the real operation.
+type SimRuntime interface {
+	// NProcs may replace the number of workers (and channel capacity).
+	NProcs(n int) int
+	// Spawn announces that n worker goroutines are about to be started.
+	Spawn(n int)
+	// Enter is the first thing a worker goroutine does; Exit the last.
+	Enter()
+	Exit()
+	// Join is called before the errgroup is waited for.
+	Join()
+	BeforeRW(mx *sync.RWMutex, write bool)
+	BeforeMutex(mx *sync.Mutex)
+	BeforeSend(ch chan osm.Object)
+	BeforeRecv(ch chan osm.Object)
+	BeforeClose(ch chan osm.Object)
+}
+
+// Sim, when non-nil, receives the hooks below. It must only be changed while
+// no extraction is running.
+var Sim SimRuntime
+
+func simNProcs(n int) int {
+	if Sim != nil {
+		return Sim.NProcs(n)
+	}
+	return n
+}
+
+func simSpawn(n int) {
+	if Sim != nil {
+		Sim.Spawn(n)
+	}
+}
+
+func simEnter() {
+	if Sim != nil {
+		Sim.Enter()
+	}
+}
+
+func simExit() {
+	if Sim != nil {
+		Sim.Exit()
+	}
+}
+
+func simJoin() {
+	if Sim != nil {
+		Sim.Join()
+	}
+}
+
+func simBeforeRW(mx *sync.RWMutex, write bool) {
+	if Sim != nil {
+		Sim.BeforeRW(mx, write)
+	}
+}
+
+func simBeforeMutex(mx *sync.Mutex) {
+	if Sim != nil {
+		Sim.BeforeMutex(mx)
+	}
+}
+
+func simBeforeSend(ch chan osm.Object) {
+	if Sim != nil {
+		Sim.BeforeSend(ch)
+	}
+}
+
+func simBeforeRecv(ch chan osm.Object) {
+	if Sim != nil {
+		Sim.BeforeRecv(ch)
+	}
+}
+
+func simBeforeClose(ch chan osm.Object) {
+	if Sim != nil {
+		Sim.BeforeClose(ch)
+	}
+}
